@@ -336,8 +336,8 @@ def r7(ctx):
 
 
 def r_enum(ctx):
-    from .common import enum_identity
-    enum_identity(ctx, "C03.R8", ('connection',))
+    from .common import repo_idioms
+    repo_idioms(ctx, "C03.R8", ('connection',))
 
 
 RULES = [("C03.R1", r1), ("C03.R2", r2), ("C03.R3", r3), ("C03.R4", r4), ("C03.R5", r5), ("C03.R6", r6), ("C03.R7", r7), ("C03.R8", r_enum)]
